@@ -16,6 +16,15 @@ test/rt/int/*):
   comparisons       signed on Int32/Int64, unsigned on UInt8, code point order on Char
   conversions       to_int64 of Int32 sign-extends; to_int32 of Int64 / to_uint8 truncate;
                     UInt8/Char/Bool widen with zeros (true = 1)
+  float <-> int     (the only floating point operations covered) Float32/Float64.to_int32/
+                    to_int64: truncation toward zero when the truncated value fits the
+                    destination type, otherwise - and for NaN - the destination type's minimum
+                    value (no trap).  pkgs/std/primitives.dora declares these @internal without
+                    documentation: the rule is read off the current behaviour of both code
+                    generators (x86 "integer indefinite") and confirmed on the real executables
+                    for boundary values on every run.  Int32/Int64.to_float32/to_float64: the
+                    nearest representable value, ties to even (IEEE 754 default rounding).
+                    Float values are bit patterns: every NaN payload, infinity, denormal counts
   && || if          short circuit: traps of the unevaluated side do not fire
   a(i)  a(i) = v    trap INDEX_OUT_OF_BOUNDS unless 0 <= i < a.size(); receiver, index,
                     value are evaluated left to right before the check
@@ -47,7 +56,9 @@ U8 = Ty("UInt8", 8, "u8")
 CHAR = Ty("Char", 32, "char")
 BOOL = Ty("Bool", 8, "bool")
 UNIT = Ty("()", 0, "unit")
-SCALARS = [I32, I64, U8, CHAR, BOOL]
+F32 = Ty("Float32", 32, "float")
+F64 = Ty("Float64", 64, "float")
+SCALARS = [I32, I64, U8, CHAR, BOOL, F32, F64]
 _ARR = {}
 
 
@@ -432,6 +443,58 @@ class Conv(E):
         return sx(a, dst.bits) if src.kind == "int" else zx(a, dst.bits)
 
 
+FCONVS = {
+    ("Float64", "to_int32"): I32, ("Float64", "to_int64"): I64, ("Float32", "to_int32"): I32, ("Float32", "to_int64"): I64,
+    ("Int32", "to_float32"): F32, ("Int32", "to_float64"): F64, ("Int64", "to_float32"): F32, ("Int64", "to_float64"): F64,
+}
+
+
+def _fsort(t):
+    return z3.Float32() if t.bits == 32 else z3.Float64()
+
+
+def float_to_int_ref(bits, src, dst):
+    """language rule for Float.to_intN on a bit pattern: truncate toward zero if the result fits,
+    else (and for NaN) the minimum value.  Written with comparisons against the exact bounds
+    (a different formulation than the instruction semantics in ssefp.py, which rounds first)"""
+    w = dst.bits
+    so = _fsort(src)
+    f = z3.fpBVToFP(bits, so)
+    hi = z3.fpSignedToFP(z3.RNE(), BV(1 << (w - 1), w + 1), so)          # 2^(w-1), a power of two: exact
+    prec = 24 if src.bits == 32 else 53
+    if prec >= w:
+        # -(2^(w-1)) - 1 is representable: everything strictly above it truncates into range
+        lo = z3.fpSignedToFP(z3.RNE(), BV((-(1 << (w - 1)) - 1) % (1 << (w + 2)), w + 2), so)
+        above = z3.fpGT(f, lo)
+    else:
+        # no representable value lies strictly between -(2^(w-1)) - 1 and -(2^(w-1))
+        above = z3.fpGEQ(f, z3.fpNeg(hi))
+    fits = z3.And(above, z3.fpLT(f, hi))                                 # false for NaN
+    return z3.If(fits, z3.fpToSBV(z3.RTZ(), f, z3.BitVecSort(w)), BV(1 << (w - 1), w))
+
+
+class FConv(E):
+    """float <-> int conversion; float values are carried as IEEE bit patterns"""
+
+    def __init__(self, m, e):
+        self.m, self.kids = m, (e,)
+        self.ty = FCONVS[(e.ty.name, m)]
+
+    def src(self):
+        return "%s.%s()" % (self.kids[0].src(), self.m)
+
+    def _ops(self, out):
+        out.append("%s.%s" % (self.kids[0].ty.name, self.m))
+        E._ops(self, out)
+
+    def ev(self, r):
+        a = self.kids[0].ev(r)
+        src, dst = self.kids[0].ty, self.ty
+        if src.kind == "float":
+            return float_to_int_ref(a, src, dst)
+        return z3.fpToIEEEBV(z3.fpSignedToFP(z3.RNE(), a, _fsort(dst)))
+
+
 class Logic(E):
     """a && b, a || b (short circuit)"""
     ty = BOOL
@@ -689,9 +752,21 @@ class Setup:
         self.lens = {}
         self.ref_args = {}
         self.ref_arrays = {}
-        if len(kernel.params) > len(INT_REGS):
-            raise sem.Unsupported("more than 6 parameters")
-        for (n, t), reg in zip(kernel.params, INT_REGS):
+        nint = sum(1 for _, t in kernel.params if t.kind != "float")
+        nflt = sum(1 for _, t in kernel.params if t.kind == "float")
+        if nint > len(INT_REGS) or nflt > 8:
+            raise sem.Unsupported("more than 6 integer / 8 float parameters")
+        ints, flts = iter(INT_REGS), iter("xmm%d" % i for i in range(8))
+        for n, t in kernel.params:
+            if t.kind == "float":
+                # separate register file and counter (dora-compiler FREG_PARAMS); the bits above the
+                # value are arbitrary for both back ends
+                v = z3.BitVec("a_" + n, t.bits)
+                self.vals[n] = v
+                env.init_regs[next(flts)] = v if t.bits == 64 else z3.Concat(z3.BitVec("hi_" + n, 32), v)
+                self.ref_args[n] = v
+                continue
+            reg = next(ints)
             if t.kind == "array":
                 p = z3.BitVec("p_" + n, 64)
                 ln = z3.BitVec("len_" + n, 64)
@@ -740,6 +815,8 @@ class Setup:
         t = self.k.ret
         if t is UNIT:
             return None
+        if t.kind == "float":
+            return sem.simp(z3.Extract(t.bits - 1, 0, path.term.xmm0)) if t.bits < 64 else path.term.xmm0
         return sem.simp(z3.Extract(t.bits - 1, 0, path.term.rax)) if t.bits < 64 else path.term.rax
 
 
@@ -749,6 +826,10 @@ class Setup:
 def show_expr(ty, e):
     if ty is CHAR:
         return "${%s.to_int32()}" % e
+    if ty is F64:
+        return "${%s.as_int64()}" % e          # floats travel as bit patterns
+    if ty is F32:
+        return "${%s.as_int32()}" % e
     if ty is UNIT:
         return "unit"
     return "${%s}" % e
@@ -766,6 +847,10 @@ def from_arg(ty, i):
         return "(%s != 0)" % a
     if ty is CHAR:
         return a + ".to_int32().to_char_unchecked()"
+    if ty is F64:
+        return a + ".as_float64()"
+    if ty is F32:
+        return a + ".to_int32().as_float32()"
     raise KeyError(ty)
 
 
@@ -827,7 +912,7 @@ def fmt_value(ty, v):
         return "unit"
     if ty is BOOL:
         return "true" if v & 0xFF else "false"
-    if ty.kind == "int":
+    if ty.kind in ("int", "float"):
         return str(sem.signed(v, ty.bits))
     return str(v)
 
@@ -860,7 +945,7 @@ def argv_of(kernel, setup, model, which):
 
 
 def arg_text(ty, v):
-    if ty.kind == "int":
+    if ty.kind in ("int", "float"):
         return str(sem.signed(v, ty.bits))
     if ty is BOOL:
         return "1" if v & 1 else "0"
@@ -934,6 +1019,15 @@ def single_operator_family():
     for (src, m), dst in CONVS.items():
         st = ty_by_name(src)
         add("%s.%s" % (src, m), [("a", st)], dst, Conv(m, Arg("a", st)))
+    # float <-> int conversions (the only floating point operations in the kernel language)
+    for (src, m), dst in FCONVS.items():
+        st = ty_by_name(src)
+        add("%s.%s" % (src, m), [("a", st)], dst, FConv(m, Arg("a", st)))
+    # mixed register files: integer and float parameters are counted separately
+    add("fconv-mixed", [("a", I64), ("x", F64), ("b", I32), ("y", F32)], I64,
+        Bin("^", Bin("^", Arg("a", I64), FConv("to_int64", Arg("x", F64))),
+            Bin("^", Conv("to_int64", Arg("b", I32)), FConv("to_int64", Arg("y", F32)))))
+    add("fconv-roundtrip", [("a", I64)], I64, FConv("to_int64", FConv("to_float64", Arg("a", I64))))
     # if / short circuit with trapping operands (evaluation order)
     x, y = Arg("a", I32), Arg("b", I32)
     add("if-div", [("a", I32), ("b", I32)], I32, If(Cmp("!=", y, Const(0, I32)), Bin("/", x, y), Const(0, I32)))
